@@ -16,7 +16,7 @@ from vlib import log
 from props import c02
 
 LEVEL = "model_checking"
-EVS = c02.API_EVS | {"call", "merge_tv", "merge_started", "schedule"}
+EVS = c02.API_EVS | {"call", "merge_tv", "merge_started", "schedule", "intruder_create"}
 
 
 def prep(events):
@@ -57,7 +57,7 @@ def run(ctx):
     log(f"[T] {nm} merges validated against MergeSem, {n}/{len(runs)} runs accepted")
 
     gp = ctx.path("gated.ndjson")
-    vlib.run_bin("merge_driver", ["gated", "--seed", ctx.seed, "--runs", 15 if ctx.quick else 150, "--out", gp], timeout=900)
+    vlib.run_bin("merge_driver", ["gated", "--seed", ctx.seed, "--runs", 18 if ctx.quick else 180, "--out", gp], timeout=900)
     gev = vlib.read_ndjson(gp)
     gruns = prep(gev)
     realised = sum(1 for e in gev if e.get("ev") == "schedule" and e.get("realised"))
